@@ -65,6 +65,24 @@ class StubReader:
         finally:
             self._waiter = None
 
+    async def read(self, n=-1):
+        """StreamReader.read contract: up to n bytes (all buffered when n < 0); b'' only at EOF."""
+        if self._exc is not None:
+            raise self._exc
+        if n == 0:
+            return b""
+        if isinstance(n, SymInt):
+            n = n.__index__()
+        while not self._buf:
+            if self._eof:
+                return b""
+            await self._wait()
+            if self._exc is not None:
+                raise self._exc
+        k = len(self._buf) if n < 0 else min(n, len(self._buf))
+        out, self._buf = self._buf[:k], self._buf[k:]
+        return bytes(out) if all(isinstance(x, int) for x in out) else SymBytes(out)
+
     async def readexactly(self, n):
         if n < 0:
             raise ValueError("readexactly size can not be less than zero")
@@ -308,6 +326,33 @@ class SegmentedReader:
 
     def buffered(self):
         return None
+
+    async def read(self, n=-1):
+        """StreamReader.read contract over the symbolic delivery offset (the returned length is concretised by forking)."""
+        if self._exc is not None:
+            raise self._exc
+        if n == 0:
+            return b""
+        if isinstance(n, SymInt):
+            n = n.__index__()
+        while not (self._pos < self.available):
+            if self._eof:
+                return b""
+            self._waiter = self._loop.create_future()
+            try:
+                await self._waiter
+            finally:
+                self._waiter = None
+            if self._exc is not None:
+                raise self._exc
+        have = self.available - self._pos
+        if n >= 0 and (have >= n):
+            k = n
+        else:
+            k = have.__index__() if isinstance(have, SymInt) else have
+        out = self._stream[self._pos:self._pos + k]
+        self._pos += k
+        return out
 
     async def readexactly(self, n):
         if n < 0:
